@@ -15,7 +15,8 @@ SHARDS = {'quick': 16, 'thorough': 64}
 TIMEOUT = {'quick': 1500, 'thorough': 7200}
 MUST_HIT = ['StrictAst.exhaustive-expression', 'StrictAst.random-expression', 'StrictAst.statement',
             'Layout.random', 'Production.GeneratePortEventNode', 'Production.CreateInstanceEventNode',
-            'Production.SelectRelatedWhereNode', 'Production.RelateUsingNode', 'Production.ForEachNode']
+            'Production.SelectRelatedWhereNode', 'Production.RelateUsingNode', 'Production.ForEachNode',
+            'Production.empty-statement']
 MUST_REACH = ['bridgepoint/oal.py:OALParser.p_arithmetic_expression',
               'bridgepoint/oal.py:OALParser.p_boolean_expression',
               'bridgepoint/oal.py:OALParser.p_unary_expression',
@@ -158,6 +159,11 @@ def run(ctx):
             except Mismatch as e2:
                 ctx.violation(e2.key, e2.what, case=dict(text=text))
                 break
+    report_render_stats(ctx)
+
+
+def report_render_stats(ctx):
+    ctx.hit('Production.empty-statement', om.STATS['empty_statements'])
 
 
 def random_tree(rng, depth, atom_makers, un, bi):
